@@ -76,3 +76,41 @@ Example demo_lex :
 Proof. eexists. vm_compute. split; reflexivity. Qed.
 Example demo_render : exists g, render_diagnostic [97; 9; 195; 169; 10; 98]%Z (2, 4) [(2, 4)] = Some g /\ g_col g = 5 /\ g_carets g = 1.
 Proof. eexists. vm_compute. repeat split. Qed.
+
+(* ================================================================== round 2: the parser is modelled too
+   theories/Parser.v is a token-level transcription of src/syntax/parser.rs (tied to the code by the
+   PARSER correspondence, which this check runs as an extra stream).  The statements are those of
+   Properties/PARSER.v (read them there); they are restated here by type so that C07's audit
+   (Print Assumptions, coqchk) covers them. *)
+Require NS.Properties.PARSER.
+
+(* for every valid UTF-8 text, lexing then parsing returns a program; fuel is never exhausted;
+   every span of the tree and of the syntax diagnostics is ordered, in range, on boundaries *)
+Theorem C07_lex_parse_total :
+  ltac:(let t := type of NS.Properties.PARSER.PARSER_lex_parse_total in exact t).
+Proof. exact NS.Properties.PARSER.PARSER_lex_parse_total. Qed.
+Print Assumptions C07_lex_parse_total.
+
+(* for EVERY token list with ordered spans the parser terminates and builds only spans whose ends
+   are 0 or token boundaries (the recovery switch is read off parser.rs) *)
+Theorem C07_parse_total :
+  ltac:(let t := type of NS.Properties.PARSER.PARSER_parse_total in exact t).
+Proof. exact NS.Properties.PARSER.PARSER_parse_total. Qed.
+Print Assumptions C07_parse_total.
+
+Theorem C07_parser_recovery_bumps :
+  ltac:(let t := type of NS.Properties.PARSER.PARSER_source_recovery_bumps in exact t).
+Proof. exact NS.Properties.PARSER.PARSER_source_recovery_bumps. Qed.
+Print Assumptions C07_parser_recovery_bumps.
+
+(* every statement parse that starts on a real token consumes at least one token *)
+Theorem C07_statement_progress :
+  ltac:(let t := type of NS.Properties.PARSER.PARSER_statement_progress in exact t).
+Proof. exact NS.Properties.PARSER.PARSER_statement_progress. Qed.
+Print Assumptions C07_statement_progress.
+
+(* the syntax diagnostics the renderer will slice by are well formed (Utf8.span_wf) *)
+Theorem C07_syntax_diagnostics_wf :
+  ltac:(let t := type of NS.Properties.PARSER.PARSER_syntax_diagnostics_wf in exact t).
+Proof. exact NS.Properties.PARSER.PARSER_syntax_diagnostics_wf. Qed.
+Print Assumptions C07_syntax_diagnostics_wf.
